@@ -87,6 +87,7 @@ type daaCase struct {
 	LastSel  int   `json:"lastSel"`
 	Raw      int   `json:"raw"`
 	Span     int   `json:"span"`
+	Proj1    int   `json:"proj1"`
 }
 
 const daaBaseHeight = 600000
@@ -157,6 +158,45 @@ func daaRun(ctx context.Context, c *daaCase) []string {
 		out = append(out, fmt.Sprintf("main chain after forks at the endpoint blocks: required bits 0x%08x, the network's rule gives 0x%08x", got, want))
 	}
 
+	return append(out, daaLowCase(ctx, c, ts)...)
+}
+
+// daaLowCase: the case's timestamps on a chain whose headers carry one unit of work each (bits 0x2100ffff): the
+// specification says what the projection floors to (proj1), zero meaning "nothing to project: the cap".
+func daaLowCase(ctx context.Context, c *daaCase, ts func(int, []int) uint32) (out []string) {
+	defer func() {
+		if r := recover(); r != nil {
+			out = append(out, fmt.Sprintf("low-work chain: PANIC in the difficulty rule: %v", r))
+		}
+	}()
+	repo := headers.NewRepository(headers.DefaultConfig(), storage.NewMockStorage())
+	repo.DisableDifficulty()
+	repo.DisableSplitProtection()
+	base := daaHeader(bitcoin.Hash32{}, 0, daaT0, 1)
+	repo.MockLatest(ctx, base, daaBaseHeight, new(big.Int).Lsh(big.NewInt(1), 80))
+	prev := *base.BlockHash()
+	for i := 1; i <= 150; i++ {
+		h := daaHeader(prev, i, ts(i, c.Last), 0)
+		h.Bits = 0x2100ffff
+		if err := repo.ProcessHeader(ctx, h); err != nil {
+			return []string{"harness: low-work chain: " + err.Error()}
+		}
+		prev = *h.BlockHash()
+	}
+	if w := blockProof(0x2100ffff); w.Cmp(big.NewInt(1)) != 0 {
+		return []string{"harness: bits 0x2100ffff are not one unit of work"}
+	}
+	want := uint32(0x1d00ffff)
+	if c.Proj1 > 0 {
+		// target = (2^256 - PW) / PW + 1 for a projected work of 1 or 2 is far above the limit as well
+		want = requiredBits(big.NewInt(int64(144+c.LastSel-c.FirstSel)), big.NewInt(0), int64(c.Span))
+	}
+	got, err := repo.VerifTarget(ctx, prev, daaBaseHeight+151)
+	if err != nil {
+		out = append(out, "low-work chain: target error "+err.Error())
+	} else if got != want {
+		out = append(out, fmt.Sprintf("low-work chain: required bits 0x%08x, the rule (projected work %d) gives 0x%08x", got, c.Proj1, want))
+	}
 	return out
 }
 
@@ -358,6 +398,8 @@ func daaReal(ctx context.Context, repoDir string) int {
 			}
 		}
 	}
+	problems = append(problems, daaLowWork(ctx)...)
+	problems = append(problems, daaOvertaken(ctx, repoDir)...)
 	res["real_headers_accepted"] = total
 	res["problems"] = problems
 	json.NewEncoder(os.Stdout).Encode(res)
@@ -472,4 +514,134 @@ func daaBits(ctx context.Context) int {
 	out, _ := json.Marshal(map[string]interface{}{"headers": n, "verdicts": verdicts})
 	fmt.Printf("DONE %s\n", out)
 	return 0
+}
+
+// daaLowWork: windows that hold next to no work (headers from below the activation height, whose bits nobody checked,
+// with targets far above the proof-of-work limit) and long time spans: the projected work W*600/TS floors to a few
+// units or to zero.  Whatever the rule makes of it, it is an answer - capped at the proof-of-work limit - and not a
+// crash of the process.
+func daaLowWork(ctx context.Context) (problems []string) {
+	for _, bits := range []uint32{0x2100ffff, 0x207fffff, 0x2000ffff, 0x1f00ffff, 0x1e00ffff} {
+		for _, step := range []int{600, 1200, 3000, 100000} {
+			func() {
+				what := fmt.Sprintf("window of headers with bits 0x%08x, %d s apart", bits, step)
+				defer func() {
+					if r := recover(); r != nil {
+						problems = append(problems, fmt.Sprintf("PANIC in the difficulty rule (%s): %v", what, r))
+					}
+				}()
+				hcfg := headers.DefaultConfig()
+				repo := headers.NewRepository(hcfg, storage.NewMockStorage())
+				repo.DisableDifficulty()
+				repo.DisableSplitProtection()
+				base := daaHeader(bitcoin.Hash32{}, 0, daaT0, 1)
+				repo.MockLatest(ctx, base, daaBaseHeight, new(big.Int).Lsh(big.NewInt(1), 80))
+				prev := *base.BlockHash()
+				cum := []*big.Int{big.NewInt(0)}
+				for i := 1; i <= 150; i++ {
+					h := daaHeader(prev, i, uint32(daaT0+i*step), 0)
+					h.Bits = bits
+					if err := repo.ProcessHeader(ctx, h); err != nil {
+						problems = append(problems, "harness: low-work chain refused with the difficulty check off: "+err.Error())
+						return
+					}
+					prev = *h.BlockHash()
+					cum = append(cum, new(big.Int).Add(cum[i-1], blockProof(bits)))
+				}
+				// strictly increasing timestamps: the medians are the middle blocks of the two windows
+				span := int64(144 * step)
+				if span > 288*600 {
+					span = 288 * 600
+				}
+				if span < 72*600 {
+					span = 72 * 600
+				}
+				w := new(big.Int).Sub(cum[149], cum[5])
+				w.Mul(w, big.NewInt(600))
+				w.Div(w, big.NewInt(span))
+				want := uint32(0x1d00ffff) // nothing to project: the cap
+				if w.Sign() > 0 {
+					want = requiredBits(cum[149], cum[5], span)
+				}
+				got, err := repo.VerifTarget(ctx, prev, daaBaseHeight+151)
+				if err != nil {
+					problems = append(problems, fmt.Sprintf("%s: target error %v", what, err))
+				} else if got != want {
+					problems = append(problems, fmt.Sprintf("%s: required bits 0x%08x, the network's rule capped at the limit gives 0x%08x", what, got, want))
+				}
+				// and the header itself is decided, not crashed on
+				next := daaHeader(prev, 151, uint32(daaT0+151*step), 0)
+				next.Bits = bits
+				repo.EnableDifficulty()
+				_ = repo.ProcessHeader(ctx, next)
+			}()
+		}
+	}
+	return problems
+}
+
+// daaOvertaken: "every header of the real chain is accepted" - also when a fork has overtaken it meanwhile.  The real
+// chain up to K, a three header fork from K-2 that becomes the most-work chain, then the real headers K+1, K+2, ...
+// with every check on: each is judged against its own branch's history and accepted, and the real chain is the
+// reported chain again as soon as it is the heavier one.
+func daaOvertaken(ctx context.Context, repoDir string) (problems []string) {
+	defer func() {
+		if r := recover(); r != nil {
+			problems = append(problems, fmt.Sprintf("PANIC while the real chain wins back: %v", r))
+		}
+	}()
+	hs, err := loadFixture(repoDir, "headers_725000.txt")
+	if err != nil {
+		return []string{"harness: " + err.Error()}
+	}
+	for _, K := range []int{400, 1000} {
+		if K+12 >= len(hs) {
+			continue
+		}
+		for _, depth := range []int{1, 2} {
+			hcfg := headers.DefaultConfig()
+			repo := headers.NewRepository(hcfg, storage.NewMockStorage())
+			repo.DisableDifficulty()
+			work := &big.Int{}
+			work.SetString("1208c3e1a7a4b4b0c6e2e6e", 16)
+			repo.MockLatest(ctx, hs[0], 725000, work)
+			for i := 1; i <= K; i++ {
+				if i == 151 {
+					repo.EnableDifficulty()
+				}
+				if err := repo.ProcessHeader(ctx, hs[i]); err != nil {
+					return append(problems, fmt.Sprintf("harness: real header %d refused: %v", 725000+i, err))
+				}
+			}
+			// the fork: depth+1 headers on top of real header K-depth, the bits of the real chain, nobody checks
+			// their hashes (difficulty off while they arrive)
+			repo.DisableDifficulty()
+			prev := *hs[K-depth].BlockHash()
+			for j := 0; j <= depth; j++ {
+				f := &wire.BlockHeader{Version: 0x20000000, PrevBlock: prev, Timestamp: hs[K-depth].Timestamp + uint32(600*(j+1)) + 7,
+					Bits: hs[K].Bits, Nonce: uint32(1000 + j)}
+				f.MerkleRoot[0] = byte(j + 1)
+				if err := repo.ProcessHeader(ctx, f); err != nil {
+					return append(problems, "harness: fork header refused with the difficulty check off: "+err.Error())
+				}
+				prev = *f.BlockHash()
+			}
+			if last := repo.LastHash(); last.Equal(hs[K].BlockHash()) {
+				return append(problems, "harness: the fork did not overtake the real chain")
+			}
+			repo.EnableDifficulty()
+			for i := K + 1; i <= K+10; i++ {
+				if err := repo.ProcessHeader(ctx, hs[i]); err != nil {
+					problems = append(problems, fmt.Sprintf("real header %d refused after a %d header fork overtook the real chain at %d: %v",
+						725000+i, depth+1, 725000+K, err))
+					break
+				}
+			}
+			if last := repo.LastHash(); len(problems) == 0 && !last.Equal(hs[K+10].BlockHash()) {
+				problems = append(problems, fmt.Sprintf("after the real chain grew ten headers past a %d header fork, the reported tip (height %d) is not the real header %d",
+					depth+1, repo.Height(), 725000+K+10))
+			}
+		}
+	}
+	return problems
 }
